@@ -703,7 +703,22 @@ func c16WireGate(r *Run) {
 		for _, p := range lp {
 			ret := p.Rets()[0]
 			if c, isC := ret.(*ssa.Const); isC && c.IsNil() {
-				r.Check(strings.Contains(p.String(), ".clean"), rule, "ListItem.Error returns a constant nil only when clean", p.Exit.Pos(), "clean flag tested", "a list must not report nil without either the clean flag or a walk of its children ["+shortCond(p)+"]")
+				// the clean flag was found TRUE on this path (not merely looked at), or the children were walked
+				cleanTrue := false
+				for _, f := range p.Conds {
+					if strings.HasSuffix(renderWith(f.Cond, p.Resolve), ".clean") && f.Val {
+						cleanTrue = true
+					}
+				}
+				// (a walk that found no children left to look at also counts: the loop condition over
+				// item.values was decided on this path)
+				walked := strings.Contains(p.String(), "len($item.values)")
+				for _, in := range p.Instrs() {
+					if c2, ok := in.(*ssa.Call); ok && c2.Call.IsInvoke() && c2.Call.Method.Name() == "Error" {
+						walked = true
+					}
+				}
+				r.Check(cleanTrue || walked, rule, "ListItem.Error returns a constant nil only when clean", p.Exit.Pos(), "clean flag found true", "a list must not report nil without either the clean flag being set or a walk of its children ["+shortCond(p)+"]")
 			}
 		}
 	}
